@@ -70,8 +70,8 @@ class BitErrorRate(BaseMetric):
             y_real = (y.real > self.threshold).bool()
             y_imag = (y.imag > self.threshold).bool()
 
-            errors_real = (x_real != y_real).float()
-            errors_imag = (x_imag != y_imag).float()
+            errors_real = (x_real != y_real)
+            errors_imag = (x_imag != y_imag)
 
             num_errors = errors_real.sum().item() + errors_imag.sum().item()
             total_bits = float(x.numel() * 2)  # Each complex number represents 2 "bits" (real/imag)
@@ -81,7 +81,7 @@ class BitErrorRate(BaseMetric):
             y_bits = (y > self.threshold).bool()
 
             # Count errors
-            errors = (x_bits != y_bits).float()
+            errors = (x_bits != y_bits)
             num_errors = errors.sum().item()
             total_bits = float(x.numel())
 
@@ -109,15 +109,15 @@ class BitErrorRate(BaseMetric):
             y_real = (y.real > self.threshold).bool()
             y_imag = (y.imag > self.threshold).bool()
 
-            errors_real = (x_real != y_real).float()
-            errors_imag = (x_imag != y_imag).float()
+            errors_real = (x_real != y_real)
+            errors_imag = (x_imag != y_imag)
 
             batch_errors = errors_real.sum().long() + errors_imag.sum().long()
             batch_bits = x.numel() * 2
         else:
             x_bits = (x > self.threshold).bool()
             y_bits = (y > self.threshold).bool()
-            errors = (x_bits != y_bits).float()
+            errors = (x_bits != y_bits)
             batch_errors = errors.sum().long()
             batch_bits = x.numel()
 
